@@ -382,6 +382,11 @@ def options(ctx, sg, lim):
     rep.check(same(I.getattr(g, 'step_ratio'), want), 'R-OPTIONS', 'limits.CStepGenerator.step_ratio', lim.relpath,
               {'path': 'spiral', 'ratio': repr(I.getattr(g, 'step_ratio'))}, 'spiral path: exp(1j*dtheta) * ratio',
               'path=spiral', key='path-spiral')
+    # dtheta = 0 is a legal angle: a spiral that does not turn (the real ratio), not "no angle given"
+    g = C(step_ratio=r, path='spiral', dtheta=0)
+    rep.check(same(I.getattr(g, 'step_ratio'), r), 'R-OPTIONS', 'limits.CStepGenerator.step_ratio', lim.relpath,
+              {'path': 'spiral', 'dtheta': 0, 'ratio': repr(I.getattr(g, 'step_ratio'))}, 'spiral path with dtheta = 0: the real ratio',
+              'path=spiral, dtheta=0', key='path-spiral')
     try:
         C(path='zigzag')
         rep.violation('R-OPTIONS', 'limits.CStepGenerator.__init__', lim.relpath, {'path': 'zigzag', 'raised': None},
